@@ -411,20 +411,30 @@ func (t *Teddy) FindMatch(haystack []byte, start int) (int, int) {
 
 	// Process candidates
 	for pos != -1 {
-		// Iterate through all set bits in bucket mask (like Rust's verify64)
+		// Iterate through all set bits in bucket mask (like Rust's verify64).
+		// Several buckets may hold a pattern that matches at this position
+		// (e.g. "abc" and "abcd" when there are more patterns than buckets);
+		// leftmost-first semantics require the lowest pattern ID among them,
+		// not the first one in bucket order.
+		bestID := -1
 		for bucketMask != 0 {
 			// Find lowest set bit (bucket ID)
 			bucket := bits.TrailingZeros8(bucketMask)
 			bucketMask &^= 1 << bucket // Clear the bit
 
-			// Verify patterns in this specific bucket
+			// Verify patterns in this specific bucket (IDs are ascending within a bucket)
 			matchPos, patternID := t.verifyBucket(haystack[accumulatedOffset:], pos, bucket)
 			if matchPos != -1 && patternID >= 0 && patternID < len(t.patterns) {
-				// Match found! Return absolute start and end
-				matchStart := start + accumulatedOffset + matchPos
-				matchEnd := matchStart + len(t.patterns[patternID])
-				return matchStart, matchEnd
+				if bestID < 0 || patternID < bestID {
+					bestID = patternID
+				}
 			}
+		}
+		if bestID >= 0 {
+			// Match found! Return absolute start and end
+			matchStart := start + accumulatedOffset + pos
+			matchEnd := matchStart + len(t.patterns[bestID])
+			return matchStart, matchEnd
 		}
 
 		// No match at this candidate in any bucket, continue searching
